@@ -184,7 +184,8 @@ func init() {
 
 func init() {
 	reg(&PropSpec{
-		ID: "C17",
+		ID:   "C17",
+		Also: []string{"C08"}, // "no leakage of response status or error objects between requests": a C08 oracle that fires in these concurrent runs is this property's failure
 		Batches: []Batch{
 			{Pkg: "scen/s1", Scen: "registry", Cfg: "", Seams: seamsS1, Quick: 6000, Thorough: 300000, ThoroughSecs: 600,
 				Real: []string{"v2/restlicodec custom-typeref registry (RegisterCustomTyperef, CustomTyperefMarshaler look-ups, sync.Map behind the shim)"},
@@ -195,10 +196,11 @@ func init() {
 			s4race("outcomes=errors", 2500, 200000),
 			s4race("late=1,filters=1,mounts=bare+mux+prefix", 2500, 200000),
 			s4race("faults=lossy", 1500, 100000),
+			s4race("outcomes=errors,filters=1,postfail=1", 1200, 100000),
 			s3race("", 3000, 150000),
 			s3race("tap=1", 3000, 150000),
 		},
-		Rule: "runs of scenarios S1-registry, S2-feed and S4-rpc under `go test -race` with the serial token scheduler: N concurrent tasks sharing one registry / one d2.Client / one handler and client; plus S3 (the real d2.Client, TreeCache and ZooKeeper client against the simulated ensemble, go1.26.8 bubble) under -race with seeded select order, run-queue order and wake-up preemption. A run is non-trivial when at least two tasks touch the shared object; distinct by workload text. Reports whose two access stacks lie wholly inside a third-party dependency (go-zookeeper's recvLoop/sendSetWatches race on lastZxid) are counted as probes, not reported: they are not go-restli's.",
+		Rule: "runs of scenarios S1-registry, S2-feed and S4-rpc under `go test -race` with the serial token scheduler: N concurrent tasks sharing one registry / one d2.Client / one handler and client (one S4 batch with the injected fault post-filter-fail; C08's status and error-object oracles count as this property's in these runs: leakage between requests); plus S3 (the real d2.Client, TreeCache and ZooKeeper client against the simulated ensemble, go1.26.8 bubble) under -race with seeded select order, run-queue order and wake-up preemption. A run is non-trivial when at least two tasks touch the shared object; distinct by workload text. Reports whose two access stacks lie wholly inside a third-party dependency (go-zookeeper's recvLoop/sendSetWatches race on lastZxid) are counted as probes, not reported: they are not go-restli's.",
 		Assume: []string{
 			"the token kernel parks tasks with raw read/write syscalls that ThreadSanitizer does not treat as synchronisation; every happens-before edge the detector sees is the program's own (plus one channel send/receive per simulated network message)",
 			"the race detector keeps a bounded access history per memory word; runs are short to make eviction unlikely",
@@ -269,8 +271,9 @@ func init() {
 		Batches: []Batch{
 			s4b("rpc", "outcomes=errors", 20000, 1500000),
 			s4b("rpc", "outcomes=errors,mounts=bare+mux+prefix,strings=benign", 8000, 500000),
+			s4b("rpc", "outcomes=errors,filters=1,postfail=1", 8000, 400000),
 		},
-		Rule:   "as C02, but the resource's outcome for every call is drawn from {value, value with overridden status, *ErrorResponse with a random subset of its ten fields set (incl. none), plain error, panic, typed-nil entity with nil error}; up to two *ErrorResponse objects are shared by all calls of a run (1-4 concurrent callers). Distinct by (resource, method, mounting) of the first call.",
+		Rule:   "as C02, but the resource's outcome for every call is drawn from {value, value with overridden status, *ErrorResponse with a random subset of its ten fields set (incl. none), plain error, panic, typed-nil entity with nil error}; up to two *ErrorResponse objects are shared by all calls of a run (1-4 concurrent callers). Error statuses include 303 and 299. Third batch: 0-3 filters and the injected fault post-filter-fail (for one call in three the first PostRequest to run fails once with a plain error); the call it hits may fail, the calls after it are judged in full. Distinct by (resource, method, mounting) of the first call.",
 		Assume: s4Assume,
 	})
 }
